@@ -548,7 +548,7 @@ def run_scope(ctx, finfo, inst, rule, label, guard="table_name", init_extra=None
 class NamesClient(BlockClient):
     def __init__(self, ctx, finfo, inst):
         track = {"startcls", "endcls", "endcls_all", "obj", "match_labels", "match_names", "strict_match_names", "content",
-                 "enable_do_label_construct_hook", "match_name_classes", "start_name", "end_name",
+                 "enable_do_label_construct_hook", "match_name_classes", "start_name", "end_name", "$sname", "$ename",
                  "found_end", "had_match", "strict_order", "enable_if_construct_hook", "enable_where_construct_hook"}
         BlockClient.__init__(self, ctx, finfo, inst, track=track, names=True)
         self.unrejected = []
@@ -609,6 +609,16 @@ class EnumFlow(F.Flow):
                         sts = nxt
                     new |= set(sts)
                 out.normal = new
+                # latch the names as read from the statements: a later re-use of the variable for something else does not
+                # change which (opening, END) pair this path compared
+                if any(isinstance(c.func, ast.Attribute) and c.func.attr in ("get_start_name", "get_end_name") for c in A.calls(s.value)):
+                    lat = set()
+                    for st in out.normal:
+                        for n, l in (("start_name", "$sname"), ("end_name", "$ename")):
+                            if n in enum:
+                                st = st.set(l, st.get(n))
+                        lat.add(st)
+                    out.normal = lat
         return out
 
     def assign(self, target, value_node, st, val=None):
@@ -657,7 +667,7 @@ def run_names(ctx, inst, rule_end, rule_names):
     for st, node in out.ret:
         if ret_kind(node, st) != "match":
             continue
-        s, e = st.get("start_name"), st.get("end_name")
+        s, e = st.get("$sname"), st.get("$ename")
         if single(s) and single(e):
             pairs.add((val_of(s), val_of(e)))
             if disagree(val_of(s), val_of(e), strict):
@@ -668,7 +678,7 @@ def run_names(ctx, inst, rule_end, rule_names):
     for st, exc, node in out.exc:
         if exc != "FortranSyntaxError" or not (isinstance(node, ast.Raise) and node.exc is not None):
             continue
-        s, e = st.get("start_name"), st.get("end_name")
+        s, e = st.get("$sname"), st.get("$ename")
         if single(s) and single(e):
             pairs.add((val_of(s), val_of(e)))
             if not disagree(val_of(s), val_of(e), strict) and not disagree(val_of(s), val_of(e), True):
